@@ -99,39 +99,51 @@ func (ds *Dataset) StartFullSyncWithLease(fullSyncID string) error {
 		return err
 	}
 	ds.fullSyncID = fullSyncID
+	ds.startFullSyncLease()
 
-	return ds.RefreshFullSyncLease(fullSyncID)
+	return nil
+}
+
+// startFullSyncLease cancels the current lease, if any, and starts a new one
+func (ds *Dataset) startFullSyncLease() {
+	// cancel previous lease
+	if ds.fullSyncLease != nil && ds.fullSyncLease.cancel != nil {
+		ds.fullSyncLease.cancel()
+	}
+
+	// start new lease
+	ctx, cancel := context.WithTimeout(context.Background(), ds.store.fullsyncLeaseTimeout)
+	ds.fullSyncLease = &fullSyncLease{
+		ctx,
+		cancel,
+	}
+
+	go func() {
+		currentFsID := ds.fullSyncID
+
+		<-ctx.Done()
+		endTime, ok := ctx.Deadline()
+		// time out was the cause
+		now := time.Now()
+		if ok && now.After(endTime) && ds.fullSyncID == currentFsID {
+			ds.fullSyncStarted = false
+			ds.fullSyncSeen = make(map[uint64]int)
+			ds.fullSyncID = ""
+			ds.fullSyncLease = nil
+		} // else, canceled by refresh. do nothing
+	}()
 }
 
 func (ds *Dataset) RefreshFullSyncLease(fullSyncID string) error {
 	if ds.fullSyncStarted {
 		if fullSyncID == ds.fullSyncID {
-			// cancel previous lease
-			if ds.fullSyncLease != nil && ds.fullSyncLease.cancel != nil {
-				ds.fullSyncLease.cancel()
+			if ds.fullSyncLease == nil {
+				// the running full sync was started without a lease (a job driven full sync):
+				// a request without sync id is a plain write and must not arm a lease whose
+				// expiry or release would end the job's full sync behind its back
+				return nil
 			}
-
-			// start new lease
-			ctx, cancel := context.WithTimeout(context.Background(), ds.store.fullsyncLeaseTimeout)
-			ds.fullSyncLease = &fullSyncLease{
-				ctx,
-				cancel,
-			}
-
-			go func() {
-				currentFsID := ds.fullSyncID
-
-				<-ctx.Done()
-				endTime, ok := ctx.Deadline()
-				// time out was the cause
-				now := time.Now()
-				if ok && now.After(endTime) && ds.fullSyncID == currentFsID {
-					ds.fullSyncStarted = false
-					ds.fullSyncSeen = make(map[uint64]int)
-					ds.fullSyncID = ""
-					ds.fullSyncLease = nil
-				} // else, canceled by refresh. do nothing
-			}()
+			ds.startFullSyncLease()
 
 			return nil
 		}
